@@ -44,6 +44,7 @@ def mc_graphs(module, nseg, maxlinks, name, invariants):
                                  for c in (v[4] if len(v) > 4 else [])]))
     if st is None or len(cases) != st[1]:
         raise MachineryError("%s printed %d cases for %s distinct states" % (module, len(cases), st))
+    cases.sort(key=lambda c: json.dumps(c, sort_keys=True))     # TLC's print order depends on its workers
     return cases, st
 
 
@@ -69,28 +70,33 @@ def gfa_text(case, ver):
     for i, l in enumerate(case["links"]):
         o1 = "+" if l["t1"] == "R" else "-"
         o2 = "+" if l["t2"] == "L" else "-"
+        eid = l.get("eid", "e%d" % (i + 1))        # C14 cases: GFA2 edges named e1, e2, ...
+        idtag = ["ID:Z:" + l["eid"]] if l.get("eid", "*") != "*" else []
         if ver == "gfa1":
             f = ["L", l["n1"], o1, l["n2"], o2, _ov1(l["ov"])]
         else:
             k = max(l["ov"], 0)
-            f = ["E", "e%d" % (i + 1), l["n1"] + o1, l["n2"] + o2]
+            idtag = []
+            f = ["E", eid, l["n1"] + o1, l["n2"] + o2]
             for n, t in ((l["n1"], l["t1"]), (l["n2"], l["t2"])):
                 if t == "R":
                     f += ["%d%s" % (lens[n] - k, "$" if k == 0 else ""), "%d$" % lens[n]]
                 else:
                     f += ["0", str(k)]
             f.append(_ov1(l["ov"]))
-        out.append("\t".join(f + l["tags"]))
+        out.append("\t".join(f + l["tags"] + idtag))
     for i, c in enumerate(case["conts"]):
         # container n1 (orientation o1) contains n2 (o2) from position pos
+        idtag = ["ID:Z:" + c["eid"]] if c["eid"] != "*" else []
         if ver == "gfa1":
             f = ["C", c["n1"], c["o1"], c["n2"], c["o2"], str(c["pos"]), _ov1(c["ov"])]
         else:
             e = c["pos"] + lens[c["n2"]]
-            f = ["E", "c%d" % (i + 1), c["n1"] + c["o1"], c["n2"] + c["o2"],
+            idtag = []
+            f = ["E", c["eid"], c["n1"] + c["o1"], c["n2"] + c["o2"],
                  str(c["pos"]), "%d%s" % (e, "$" if e == lens[c["n1"]] else ""),
                  "0", "%d$" % lens[c["n2"]], _ov1(c["ov"])]
-        out.append("\t".join(f + c["tags"]))
+        out.append("\t".join(f + c["tags"] + idtag))
     return out
 
 
@@ -369,3 +375,299 @@ def check_c14(out, tier, seed):
         "harness/project.py + GPool: syntactic abstraction of written lines and object references",
         "graphs of <= 4 segments and <= 4 dovetails (plus two parallel twins), match-only or `*` overlaps",
     ]
+
+
+# --------------------------------------------------------------------------
+# C15
+
+C15_INV = ["Satisfiable", "Discriminating"]
+
+
+def mc_multiply(nseg, maxlinks, lawlinks, name):
+    """MC_Multiply: graphs (CASE), the argument catalogue (ARGS), laws checked in the same run."""
+    wd = tlc.workdir(name)
+    cfg = _mc_cfg(nseg, maxlinks, C15_INV).replace("CONSTRAINT", "CONSTANT LawLinks = %d\nCONSTRAINT" % lawlinks)
+    rc, out = tlc.run_tlc("MC_Multiply", cfg, wd, workers=NCPU, heap="4g")
+    tlc.check_ok(rc, out, "MC_Multiply NSeg=%d MaxLinks=%d" % (nseg, maxlinks))
+    st = tlc.stats(out)
+    cases = []
+    for raw in tlc.parse_tuples(out, "CASE"):
+        v = tlc.tla_value(raw)
+        cases.append(dict(prof=v[1],
+                          segs=[dict(name=s[0], seq="".join(s[1]) or "*", len=s[2], ln=s[3], tags=list(s[4]))
+                                for s in v[2]],
+                          links=[dict(n1=l[0], t1=l[1], n2=l[2], t2=l[3], ov=l[4], tags=list(l[5]), eid=l[6])
+                                 for l in v[3]],
+                          conts=[dict(n1=c[0], o1=c[1], n2=c[2], o2=c[3], pos=c[4], ov=c[5], tags=list(c[6]),
+                                      eid=c[7]) for c in v[4]]))
+    if st is None or len(cases) != st[1]:
+        raise MachineryError("MC_Multiply printed %d cases for %s distinct states" % (len(cases), st))
+    cases.sort(key=lambda c: json.dumps(c, sort_keys=True))
+    a = tlc.parse_tuples(out, "ARGS")
+    if not a:
+        raise MachineryError("MC_Multiply printed no ARGS catalogue")
+    v = tlc.tla_value(a[0])
+    args = sorted((dict(seg=x[0], k=x[1], policy=x[2], names=x[3]) for x in v[1]),
+                  key=lambda a: json.dumps(a, sort_keys=True))
+    return cases, args, list(v[2]), st
+
+
+def run_c15(job):
+    """job = dict(id, ver, case, arg = dict(seg (1-based index), k, policy, names), given)."""
+    gfapy = _load_gfapy()
+    signal.signal(signal.SIGALRM, _alarm)
+    case, ver, a = job["case"], job["ver"], job["arg"]
+    text = gfa_text(case, ver)
+    pool = GPool()
+    uni = _universe(case)
+    seg = case["segs"][a["seg"] - 1]["name"]
+    names = list(job["given"][:a["k"] - 1]) if a["names"] == "given" and a["k"] >= 2 else []
+    call = "multiply(%r, %d, copy_names=%r, distribute=%r)" % (seg, a["k"], names or None, a["policy"])
+    res, exc, gfa = _guard(lambda: gfapy.Gfa(text, version=ver))
+    rec = dict(id=job["id"], kind="c15", ver=ver, text=text, call=call,
+               args=dict(seg=seg, k=a["k"], policy=a["policy"], names=names),
+               intended=_intended(case, ver), load=res)
+    if res != "ok":
+        rec["broken"] = "load:" + exc
+        rec["pool"] = pool.items
+        return rec
+    rec["pre"] = project.observe(gfa, pool, uni)
+    r, e, _v = _guard(lambda: gfa.multiply(seg, a["k"], copy_names=(names or None), distribute=a["policy"]))
+    rec["m1"] = dict(res=r, exc=e, obs=project.observe(gfa, pool, uni))
+    rec["pool"] = pool.items
+    if "broken" in rec["pre"] or "broken" in rec["m1"]["obs"]:
+        rec["broken"] = "listing"
+    return rec
+
+
+def c15_jobs(tier, seed, out=None):
+    rnd = random.Random(seed)
+    if tier == "quick":
+        shapes, args, given, st = mc_multiply(3, 3, 2, "graphops-mc15")
+        plan = {0: 4, 1: 4, 2: 3, 3: 0.4}          # dovetails in the graph -> argument tuples per graph
+    else:
+        shapes, args, given, st = mc_multiply(3, 4, 2, "graphops-mc15")
+        plan = {0: len(args), 1: len(args), 2: len(args), 3: 5, 4: 1}
+    # argument tuples that multiply (factor >= 2) are what the property is about: weight them
+    heavy = [a for a in args if a["k"] >= 2]
+    light = [a for a in args if a["k"] < 2]
+    jobs = []
+    per = {}
+    for c in shapes:
+        m = plan[len(c["links"])]
+        if m >= len(args):
+            pick = list(args)
+        elif m < 1:
+            pick = [rnd.choice(heavy)] if rnd.random() < m else []
+        else:
+            pick = rnd.sample(heavy, m - 1) + [rnd.choice(light if rnd.random() < 0.5 else heavy)]
+        for a in pick:
+            ver = rnd.choice(("gfa1", "gfa2"))
+            jobs.append(dict(id="c15-%d" % len(jobs), ver=ver, case=c, arg=a, given=given))
+        per[len(c["links"])] = per.get(len(c["links"]), 0) + len(pick)
+    if out is not None:
+        out.add_cov(spec_states=st[1], spec_transitions=st[0], argument_tuples=len(args),
+                    bounds="3 segments x <= %d dovetails (21 end pairs + 2 parallel twins) x 4 containment options "
+                    "x 3 profiles = %d graphs; argument catalogue = segment x {-1,0,1} + segment x {2,3} x "
+                    "5 policies x {automatic, given names} = %d tuples; cases per number of dovetails: %s "
+                    "(all tuples when the plan says %d, seeded samples otherwise); GFA1/GFA2 chosen by the seed"
+                    % (max(plan), len(shapes), len(args), json.dumps(per, sort_keys=True), len(args)))
+    return jobs
+
+
+def _c15_nontrivial(r):
+    """rule: factor >= 2, the call returned, and the multiplied segment had at least one edge"""
+    seg = r["args"]["seg"]
+    return r["args"]["k"] >= 2 and r.get("m1", {}).get("res") == "ok" and \
+        any(("\t" + seg + "\t") in t or ("\t" + seg + "+") in t or ("\t" + seg + "-") in t
+            for t in r["text"] if t[0] in "LCE")
+
+
+def check_c15(out, tier, seed):
+    jobs = c15_jobs(tier, seed, out)
+    recs = run_jobs(run_c15, jobs)
+    rej, states = validate(recs, "graphops-val15")
+    _machinery(recs, rej)
+    byid = {j["id"]: j for j in jobs}
+    for r in recs:
+        cl = rej.get(r["id"])
+        if "broken" in r:
+            cl = ["C15.graph"]
+        if cl:
+            out.violations.append(_viol("C15", r, cl, byid[r["id"]]))
+    nt = {json.dumps([r["text"], r["call"]]) for r in recs if _c15_nontrivial(r)}
+    out.add_cov(evaluations=len(recs), distinct_nontrivial=len(nt), traces_validated=states,
+                rule="case = one enumerated graph (GFA1 or GFA2 text) and one argument tuple of multiply(), "
+                     "pre- and post-state judged by TraceGraphOps with Multiply.tla; non-trivial = distinct "
+                     "(text, call) with factor >= 2 that returned and whose segment has at least one edge",
+                exhaustive=False)
+    for r in [r for r in recs if _c15_nontrivial(r)][:3]:
+        out.samples.append({"text": r["text"], "call": r["call"], "result": r["m1"]["res"]})
+    out.assumptions += [
+        "TLC and the TLA+ semantics of spec/Multiply.tla, Gfa.tla (dovetail ends), TraceGraphOps.tla",
+        "harness/project.py + GPool: syntactic abstraction of written lines and object references",
+        "graphs of 3 segments, <= 4 dovetails, <= 2 containments; factors -1..3",
+    ]
+
+
+
+# --------------------------------------------------------------------------
+# replay of one recorded violation
+
+def _rerun(prop, job):
+    rec = (run_c14 if prop == "C14" else run_c15)(job)
+    if "broken" in rec:
+        return rec, [prop + ".graph"]
+    rej, _ = validate([rec], "graphops-replay")
+    return rec, rej.get(rec["id"], [])
+
+
+def replay(prop, violation, path):
+    job = violation["job"]
+    rec, clauses = _rerun(prop, job)
+    print("input (%s):" % rec["ver"])
+    for t in rec["text"]:
+        print("   ", t)
+    if prop == "C14":
+        print("linear_paths() ->", rec.get("lps", {}).get("res"), rec.get("lps", {}).get("paths"))
+        print("merge_linear_paths(%s) ->" % ("merged_name='short'" if job["short"] else ""),
+              rec.get("m1", {}).get("res"), rec.get("m1", {}).get("exc"),
+              "; again ->", rec.get("m2", {}).get("res"), rec.get("m2", {}).get("exc"))
+    else:
+        print(rec["call"], "->", rec.get("m1", {}).get("res"), rec.get("m1", {}).get("exc"))
+    mine = [c for c in clauses if c.startswith(prop + ".") or c == "foreign"]
+    if any(c.startswith("harness.") for c in clauses):
+        print("MACHINERY-FAILURE: text builder and specification disagree:", clauses)
+        return 2
+    if mine:
+        print("REJECT clauses=%s" % ",".join(mine))
+        print("VIOLATION property=%s replay=%s" % (prop, path))
+        return 1
+    print("replay passes")
+    return 0
+
+
+# --------------------------------------------------------------------------
+# self-test: the trace specification must reject corrupted recordings
+
+def _case(segs, links, conts=()):
+    return dict(prof=0,
+                segs=[dict(name=n, seq=q, len=len(q), ln=0, tags=list(t)) for n, q, t in segs],
+                links=[dict(n1=a, t1=b, n2=c, t2=d, ov=k, tags=list(t), eid="*") for a, b, c, d, k, t in links],
+                conts=[dict(n1=a, o1=b, n2=c, o2=d, pos=p_, ov=k, tags=list(t), eid="*")
+                       for a, b, c, d, p_, k, t in conts])
+
+
+def _repoint(rec, slot, pred, change):
+    """In observation `slot` of a recording give the first line whose record satisfies pred a
+    changed copy of its pool record."""
+    obs = rec[slot]["obs"]
+    for ln in obs["lines"]:
+        r = rec["pool"][ln["p"] - 1]
+        if pred(r):
+            r2 = copy.deepcopy(r)
+            change(r2)
+            rec["pool"].append(r2)
+            ln["p"] = len(rec["pool"])
+            return True
+    return False
+
+
+def _drop_line(obs, pred, pool):
+    """Remove the first line whose record satisfies pred, with every reference to it."""
+    idx = next(i for i, ln in enumerate(obs["lines"]) if pred(pool[ln["p"] - 1])) + 1
+    ren = lambda j: j if j < idx else j - 1
+    lines = []
+    for i, ln in enumerate(obs["lines"]):
+        if i + 1 == idx:
+            continue
+        ln = dict(ln)
+        ln["fwd"] = [[k, ren(j)] for k, j in ln["fwd"] if j != idx]
+        ln["br"] = [[k, [ren(j) for j in ids if j != idx]] for k, ids in ln["br"]]
+        ln["br"] = [e for e in ln["br"] if e[1]]
+        lines.append(ln)
+    obs["lines"] = lines
+
+
+def selftest():
+    """Record real runs, corrupt one recorded field each, require the expected clause."""
+    g14 = _case([("A", "AACGT", ()), ("B", "CCGA", ()), ("C", "GTTA", ()), ("D", "TCA", ())],
+                [("A", "R", "B", "R", 2, ()), ("B", "L", "C", "L", 1, ()), ("D", "R", "C", "L", 1, ())])
+    g15 = _case([("A", "AACGT", ("RC:i:10", "xx:Z:t")), ("B", "CCG", ("FC:i:9",)), ("C", "GTTA", ())],
+                [("A", "R", "B", "L", 1, ("RC:i:11",)), ("A", "R", "C", "L", 1, ("KC:i:8",))],
+                [("A", "+", "B", "+", 1, 3, ("FC:i:4",))])
+    base14 = run_c14(dict(id="st14", ver="gfa1", case=g14, short=False))
+    base15 = run_c15(dict(id="st15", ver="gfa1", case=g15, given=["cp1", "cp2"],
+                          arg=dict(seg=1, k=2, policy="off", names="auto")))
+    variants = [("c14 as recorded", base14, None), ("c15 as recorded", base15, None)]
+
+    def mutant(name, base, expect, fn):
+        r = copy.deepcopy(base)
+        r["id"] = name
+        fn(r)
+        variants.append((name, r, expect))
+
+    is_merged = lambda r: r["rt"] == "S" and "_" in r["name"]
+    mutant("merged sequence reversed", base14, "C14.sequence",
+           lambda r: _repoint(r, "m1", is_merged, lambda x: x.update(seq=x["seq"][::-1])))
+    mutant("merged LN off by one", base14, "C14.length",
+           lambda r: _repoint(r, "m1", is_merged, lambda x: x.update(ln=x["ln"] + 1)))
+    is_inherited = lambda r: r["rt"] == "L" and any("_" in x["id"] for x in r["refs"])
+    mutant("inherited link dropped", base14, "C14.links",
+           lambda r: _drop_line(r["m1"]["obs"], is_inherited, r["pool"]))
+
+    def flip(x):
+        for ref in x["refs"]:
+            if "_" in ref["id"]:
+                ref["o"] = "-" if ref["o"] == "+" else "+"
+    mutant("inherited link with the wrong orientation", base14, "C14.links",
+           lambda r: _repoint(r, "m1", is_inherited, flip))
+    mutant("untouched segment altered", base14, "C14.rest",
+           lambda r: _repoint(r, "m1", lambda x: x["rt"] == "S" and x["name"] == "D",
+                              lambda x: x.update(f=["TCAA"], seq=list("TCAA"))))
+    mutant("a chain missing from linear_paths()", base14, "C14.chains",
+           lambda r: r["lps"].update(paths=[]))
+    mutant("a chain end reported on the wrong side", base14, "C14.chains",
+           lambda r: r["lps"]["paths"][0][0].__setitem__(1, "L" if r["lps"]["paths"][0][0][1] == "R" else "R"))
+    mutant("a component split", base14, "C14.components",
+           lambda r: r["m1"]["obs"].update(cc=[[n] for n in sorted(sum(r["m1"]["obs"]["cc"], []))]))
+    mutant("back-reference lost", base14, "C14.graph",
+           lambda r: next(ln for ln in r["m1"]["obs"]["lines"] if ln["br"])["br"].pop())
+    mutant("second merge changed the graph", base14, "C14.idempotent",
+           lambda r: _drop_line(r["m2"]["obs"], is_inherited, r["pool"]))
+    is_copy_edge = lambda r: r["rt"] in "LC" and any("*" in x["id"] for x in r["refs"])
+    mutant("count of a copied link not divided", base15, "C15.counts",
+           lambda r: _repoint(r, "m1", lambda x: is_copy_edge(x) and max(x["cnt"]) >= 0,
+                              lambda x: x.update(cnt=[c + 1 if c >= 0 else c for c in x["cnt"]])))
+    mutant("copied link dropped", base15, "C15.edges",
+           lambda r: _drop_line(r["m1"]["obs"], lambda x: x["rt"] == "L" and is_copy_edge(x), r["pool"]))
+    mutant("copied containment dropped", base15, "C15.edges",
+           lambda r: _drop_line(r["m1"]["obs"], lambda x: x["rt"] == "C" and is_copy_edge(x), r["pool"]))
+    mutant("copy with another sequence", base15, "C15.copies",
+           lambda r: _repoint(r, "m1", lambda x: x["rt"] == "S" and "*" in x["name"],
+                              lambda x: x.update(f=["AACGA"], seq=list("AACGA"))))
+    mutant("copy lost an ordinary tag", base15, "C15.copies",
+           lambda r: _repoint(r, "m1", lambda x: x["rt"] == "S" and "*" in x["name"],
+                              lambda x: x.update(otags=[])))
+    mutant("segment count not divided", base15, "C15.counts",
+           lambda r: _repoint(r, "m1", lambda x: x["rt"] == "S" and x["name"] == "A",
+                              lambda x: x.update(cnt=[10, -1, -1])))
+    mutant("link of another segment altered", base15, "C15.rest",
+           lambda r: _repoint(r, "m1", lambda x: x["rt"] == "S" and x["name"] == "C",
+                              lambda x: x.update(otags=["zz:i:1"])))
+    recs = [r for _, r, _ in variants]
+    for r in recs:
+        if "broken" in r:
+            raise MachineryError("selftest recording broken: %s" % r.get("broken"))
+    rej, _ = validate(recs, "graphops-selftest")
+    bad = 0
+    for name, r, expect in variants:
+        got = rej.get(r["id"], [])
+        ok = (not got) if expect is None else (expect in got)
+        print("selftest graphops: %-45s expect %-16s got %s %s" % (name, expect or "accepted", got or "accepted",
+                                                                    "ok" if ok else "FAILED"))
+        bad += 0 if ok else 1
+    return 1 if bad else 0
+
+
+PROPS = {"C14": (check_c14, "exploration"), "C15": (check_c15, "exploration")}
